@@ -2,7 +2,7 @@
 
 Timed traces under a virtual clock (proxy.http.handler.time is a harness object): --timeout in {1, 2, 10, 60};
 a connection is put into a state that nothing but the reaper can end (established tunnel, keep-alive after a
-complete exchange, half-received request); then a generated sequence of steps, each = advance the clock by a gap
+complete exchange, half-received request, connected and silent); then a generated sequence of steps, each = advance the clock by a gap
 (placed at timeout - eps, timeout + eps with eps in {1 ms, 1 s}, or far on either side) and do one of: client
 sends bytes, origin sends a few bytes (delivered), origin floods while the client does not read (output stays
 pending), client drains, nothing.  After every step the loop runs 2P+6 iterations with the clock standing still
@@ -60,6 +60,8 @@ def run_case(c: Dict[str, Any]) -> Dict[str, Any]:
         first = b'CONNECT idle.test:443 HTTP/1.1\r\nHost: idle.test:443\r\n\r\n'
     elif state == 'keepalive':
         first = b'GET http://idle.test/a HTTP/1.1\r\nHost: idle.test\r\n\r\n'
+    elif state == 'silent':
+        first = b''      # connects and never sends a byte
     else:
         first = b'GET http://idle.test/a HTTP/1.1\r\nHost: idl'
     client = K.Peer('client', out=first, read_in_drain=True)
@@ -210,8 +212,12 @@ GAPS = ['t-1s', 't-1ms', 't', 't+1ms', 't+1s', 't/2', '3t', '0']
 
 @st.composite
 def cases(draw: Any, mode: str) -> Dict[str, Any]:
-    state = draw(st.sampled_from(['tunnel', 'tunnel', 'keepalive', 'half']))
-    acts = ['client_send', 'nothing', 'nothing'] + (['origin_small', 'origin_flood', 'client_drain', 'origin_close'] if state != 'half' else [])
+    state = draw(st.sampled_from(['tunnel', 'tunnel', 'keepalive', 'half', 'silent']))
+    if state == 'silent':
+        # only the clock moves (a first byte would turn this into the 'half' state)
+        steps = [{'gap': draw(st.sampled_from(GAPS)), 'action': 'nothing'} for _ in range(draw(st.integers(1, 4)))]
+        return {'timeout': draw(st.sampled_from([1, 2, 10, 60])), 'state': state, 'mode': mode, 'steps': steps}
+    acts = ['client_send', 'nothing', 'nothing'] + (['origin_small', 'origin_flood', 'client_drain', 'origin_close'] if state not in ('half',) else [])
     steps = [{'gap': draw(st.sampled_from(GAPS)), 'action': draw(st.sampled_from(acts))} for _ in range(draw(st.integers(1, 6)))]
     return {'timeout': draw(st.sampled_from([1, 2, 10, 60])), 'state': state, 'mode': mode, 'steps': steps}
 
